@@ -10,6 +10,8 @@
 // bursts, bodies with scripted duration that look at ctx immediately / late / only at the
 // end, and probe bodies that, once they notice a prioritized begin, wait for ctx.Done().
 // Scenarios run in groups of several at a time; a group is joined before the next starts.
+// A second family (genLastDone, child stage "lastdone" in the plain build) aims many invokers
+// at the instant of the last prioritized task's decrement+broadcast to expose lost wake-ups.
 //
 // Monitors (files: monitor.go = hook handler + decision, quiesce.go = state-based
 // quiescence): see NOTES.md. Which monitor state sits where with respect to AUTHORING
